@@ -45,7 +45,11 @@ def core_pool(n):
 
 
 def compare(a, b):
-    return impl.bs.SCRIPT_FUNCTIONS['systemCompare']([a, b], None)
+    try:
+        return impl.bs.SCRIPT_FUNCTIONS['systemCompare']([a, b], None)
+    except Exception as e:  # pylint: disable=broad-except
+        raise Violation('systemCompare(%s, %s) raised %s: %s - any two values can be compared' % (ref_type(a), ref_type(b), type(e).__name__, str(e)[:80]),
+                        {'kind': 'pair', 'a': enc(a), 'b': enc(b)}, 'compare-raises:' + type(e).__name__) from e
 
 
 def models():
